@@ -11,7 +11,7 @@ from . import core as C
 
 ENGINES = {
     "e1_txn": ["{}", '{"no_faults": true}'],
-    "e2_history": ["{}", '{"faults": true}', '{"chains": true}', '{"generated": true}', '{"trees": true}', '{"disk": true}', '{"blocks": true, "index": 3, "of": 28}'],
+    "e2_history": ["{}", '{"faults": true}', '{"chains": true}', '{"generated": true}', '{"trees": true}', '{"disk": true}', '{"ignore_history": true}', '{"blocks": true, "index": 3, "of": 28}'],
     "e3_pool": ['{"profile": "base", "schedules": 2}', '{"profile": "stagefault", "schedules": 1}', '{"profile": "converge", "schedules": 1}',
                 '{"profile": "edges", "schedules": 2}', '{"profile": "preserve", "schedules": 1}', '{"profile": "imports", "schedules": 1}', '{"profile": "optout", "schedules": 1}'],
     "e5_optout": ["{}", '{"kind": "preserve"}'],
